@@ -14,6 +14,7 @@ import (
 	"io"
 	"math/big"
 	"os"
+	"reflect"
 	"strings"
 	"sync"
 	"testing"
@@ -104,6 +105,10 @@ type Req struct {
 	SingleOnce []uint64 `json:"single_fail_once,omitempty"` // only the first single-signature call made on this account for this request fails
 	SingleFail []uint64 `json:"single_fail,omitempty"` // the single-signature methods of this account fail (batch calls sign for it)
 	Batch   []int  `json:"batch"`              // positions in Pool, in request order (single-account kinds use Batch[0])
+	// in an overlapped session: the ParkAt-th account call made for this request waits ("before": before
+	// it looks at its arguments, "after": with its answer ready) while the following requests are made
+	Park   string `json:"park,omitempty"`
+	ParkAt int    `json:"park_at,omitempty"`
 
 	Slot  uint64   `json:"slot,omitempty"`
 	Epoch uint64   `json:"epoch,omitempty"`
@@ -141,6 +146,10 @@ type Input struct {
 	Req
 	Then       []Req `json:"then,omitempty"`
 	Concurrent bool  `json:"concurrent,omitempty"`
+	// Overlap: the requests are made one after the other while the account calls of the earlier ones
+	// (Req.Park) are still waiting; Release: the order in which the waiting ones go on ("fifo", else lifo)
+	Overlap bool   `json:"overlap,omitempty"`
+	Release string `json:"release,omitempty"`
 
 	Tags []string `json:"tags,omitempty"`
 }
@@ -223,6 +232,7 @@ type Observed struct {
 	Verified []bool   `json:"verified,omitempty"` // BLS verification against the spec root
 	Roots    []string `json:"roots,omitempty"`    // harness-computed spec signing roots (hex)
 	Domains  []string `json:"domain_calls,omitempty"`
+	Changed  bool     `json:"changed_after_return,omitempty"` // the returned signatures were different when the request returned
 	// in the sample of a later request of a session: what the earlier requests gave
 	Earlier []Observed `json:"earlier_requests,omitempty"`
 }
@@ -311,13 +321,34 @@ func runInput(t *testing.T, in Input, level zerolog.Level) []Observed {
 	}
 	steps := in.steps()
 	res := make([]Observed, len(steps))
-	if !in.Concurrent {
-		for k := range steps {
-			res[k] = runStep(t, svc, dp, rec, pool, bases, in.view(k))
+	// what the requests returned is looked at when the whole session is over
+	later := make([]func() Observed, len(steps))
+	look := func() []Observed {
+		for k, f := range later {
+			if f != nil {
+				res[k] = f()
+			}
 		}
 		return res
 	}
-	res[0] = runStep(t, svc, dp, rec, pool, bases, in.view(0))
+	if in.Overlap {
+		envs := make([]*stepEnv, len(steps))
+		for k := range steps {
+			envs[k] = newStepEnv(in.view(k))
+			envs[k].park, envs[k].parkAt = steps[k].Park, steps[k].ParkAt
+			envs[k].entered, envs[k].release = make(chan struct{}, 1), make(chan struct{})
+		}
+		runOverlapped(in, envs, func(k int) { later[k] = callStep(t, svc, envs[k], rec, pool, bases, in.view(k)) },
+			func(msg string) { t.Fatalf("%s", msg) })
+		return look()
+	}
+	if !in.Concurrent {
+		for k := range steps {
+			later[k] = callStep(t, svc, newStepEnv(in.view(k)), rec, pool, bases, in.view(k))
+		}
+		return look()
+	}
+	later[0] = callStep(t, svc, newStepEnv(in.view(0)), rec, pool, bases, in.view(0))
 	var wg sync.WaitGroup
 	start := make(chan struct{})
 	for k := 1; k < len(steps); k++ {
@@ -325,17 +356,33 @@ func runInput(t *testing.T, in Input, level zerolog.Level) []Observed {
 		go func(k int) {
 			defer wg.Done()
 			<-start
-			res[k] = runStep(t, svc, dp, rec, pool, bases, in.view(k))
+			later[k] = callStep(t, svc, newStepEnv(in.view(k)), rec, pool, bases, in.view(k))
 		}(k)
 	}
 	close(start)
 	wg.Wait()
-	return res
+	return look()
 }
 
 // runStep makes one request (in is a single-request view of the session) to the session's service.
 func runStep(t *testing.T, svc *standardsigner.Service, dp *domainProvider, rec *recorder, pool []e2wtypes.Account, bases []*base, in Input) Observed {
-	env := &stepEnv{fail: in.DomFail, batchFail: keySet(in.BatchFail), batchZero: keySet(in.BatchZero), batchOnce: keySet(in.BatchOnce), batchErr: keySet(in.BatchErr), singleFail: keySet(in.SingleFail), singleOnce: keySet(in.SingleOnce)}
+	return runStepEnv(t, svc, newStepEnv(in), rec, pool, bases, in)
+}
+
+// newStepEnv: what is particular to one request (in is a single-request view of the session).
+func newStepEnv(in Input) *stepEnv {
+	return &stepEnv{fail: in.DomFail, batchFail: keySet(in.BatchFail), batchZero: keySet(in.BatchZero), batchOnce: keySet(in.BatchOnce), batchErr: keySet(in.BatchErr), singleFail: keySet(in.SingleFail), singleOnce: keySet(in.SingleOnce)}
+}
+
+func runStepEnv(t *testing.T, svc *standardsigner.Service, env *stepEnv, rec *recorder, pool []e2wtypes.Account, bases []*base, in Input) Observed {
+	return callStep(t, svc, env, rec, pool, bases, in)()
+}
+
+// callStep makes the request and returns the function that looks at what came back.  In a session
+// that function is called when ALL the requests of the session are over: the slice of signatures a
+// request returned is its caller's, and must still hold that request's signatures when later
+// requests have been handled by the same service.
+func callStep(t *testing.T, svc *standardsigner.Service, env *stepEnv, rec *recorder, pool []e2wtypes.Account, bases []*base, in Input) func() Observed {
 	ctx := withStepEnv(context.Background(), env)
 	accounts := make([]e2wtypes.Account, len(in.Batch))
 	for i, p := range in.Batch {
@@ -425,12 +472,24 @@ func runStep(t *testing.T, svc *standardsigner.Service, dp *domainProvider, rec 
 	obs.Domains = append([]string(nil), env.calls...)
 	env.mu.Unlock()
 	if obs.Outcome == "panic" {
-		return obs
+		return func() Observed { return obs }
 	}
 	if callErr != nil {
 		obs.Outcome, obs.Err = "err", callErr.Error()
-		return obs
+		return func() Observed { return obs }
 	}
+	atReturn := observe(obs, env, rec, bases, in, sigs)
+	return func() Observed {
+		o := observe(obs, env, rec, bases, in, sigs)
+		if !reflect.DeepEqual(o, atReturn) {
+			o.Changed = true // the slice the request returned was written to after it was returned
+		}
+		return o
+	}
+}
+
+// observe: provenance and BLS verification of the signatures that a request returned.
+func observe(obs Observed, env *stepEnv, rec *recorder, bases []*base, in Input, sigs []phase0.BLSSignature) Observed {
 	obs.Outcome = "ok"
 	roots := specRoots(in)
 	var zero phase0.BLSSignature
@@ -575,6 +634,9 @@ func TestC06(t *testing.T) {
 		if i%sessionEvery == sessionEvery-1 {
 			// every sessionEvery-th input is a session of several requests on one service instance
 			ins = append(ins, genSession(r, i/sessionEvery))
+		} else if i%overlapEvery == overlapEvery-2 {
+			// requests made while the account calls of earlier ones are still waiting
+			ins = append(ins, genOverlap(r, i/overlapEvery))
 		} else if i%partialEvery == partialEvery-5 {
 			// partial failures of the remote signer (a batch call leaves out one member, ...)
 			ins = append(ins, genPartial(r, i/partialEvery))
@@ -603,6 +665,7 @@ func TestC06(t *testing.T) {
 			v := in.view(j)
 			tags := append(append(append([]string{}, in.Tags...), derivedTags(v)...), sessionTags(in, j)...)
 			tags = append(tags, partialTags(v)...)
+			tags = append(tags, overlapTags(in, j)...)
 			tags = append(tags, contentTags(v)...)
 			col.Count("kind:" + v.Kind)
 			col.Count("outcome:" + v.Kind + ":" + obs.Outcome)
@@ -618,7 +681,15 @@ func TestC06(t *testing.T) {
 			col.Count(fmt.Sprintf("batch-size:%d", min(len(v.Batch), 9)))
 			id := col.NextID()
 			upto := in.prefix(j)
+			if in.Overlap || obs.Changed {
+				// what a request of an overlapped session is handed depends on the requests made while
+				// its account call waited: the whole session is what has to be replayed
+				upto = in
+			}
 			key, _ := json.Marshal(upto)
+			if in.Overlap || obs.Changed {
+				key = append(key, fmt.Sprintf("#%d", j)...)
+			}
 			sample := obs
 			sample.Earlier = all[:j]
 			col.Add(Case{Term: term(id, v, obs), Key: string(key), Nontrivial: obs.Outcome == "ok" && nonzero > 0, Tags: tags,
